@@ -90,6 +90,16 @@ def send_facts(prog: Program, cr: ClientRoles) -> Tuple[Dict[str, Any], List[Tup
     facts['validated'] = len(val) == 1
     if len(val) != 1 or [dotted(a) for a in val[0].args][:1] != [req]:
         problems.append(('INTEROP-TABLE', 'response is not related to the request', f.node.lineno, 'validator(request, response) must run for every call'))
+    else:
+        # ... for EVERY call: nothing but the notification test may stand between the decoded response and the validator
+        from ..util import stmt_node_of as _sno
+        vn_ = _sno(cfg, val[0])
+        extra = [g for g in (guard_edges(cfg, vn_) if vn_ is not None else []) if g.src is not b and not isinstance(g.src.ast, ast.Constant)]
+        facts['validator_guards'] = sorted(norm(g.src.ast) + ':' + g.label for g in extra)
+        if extra:
+            problems.append(('INTEROP-TABLE', 'response related to the request only conditionally', vn_.line if vn_ is not None else f.node.lineno,
+                             f'`{norm(val[0])}` runs only when {[norm(g.src.ast) + ":" + g.label for g in extra]}: on the other path the response id is '
+                             f'never compared with the request id (no IdentityError for a foreign response) and the response is not linked to its request'))
     # notification side: strict ∧ body → error; response None
     nr = [cfg.nodes[i] for i in notif_region if isinstance(cfg.nodes[i].ast, ast.Raise)]
     ok_n = False
@@ -372,6 +382,22 @@ def run(ck: Check, prog: Program) -> None:
     ck.ob('REQUEST-WIRE', 'Request.to_json: jsonrpc, method always; id iff not None; params iff non-empty', not wp)
     for construct, msg, line in wp:
         ck.finding('REQUEST-WIRE', rtj.qualname, construct, rtj.module.rel, line, msg)
+    # ---- server side of the round trip ---------------------------------------------------------------------
+    # (a) a server error reaches the caller as the exception class registered for its code (typed except clauses)
+    from .c05 import _registry
+    from .c06 import model_program
+    _registry(ck, model_program(prog))
+    # (b) the results of a batch come back in request order: the dispatcher maps the batch to its responses in order
+    from .common import dispatcher_program, dispatchers
+    from .dfacts import batch_facts
+    dprog = dispatcher_program(prog)
+    for r_ in dispatchers(dprog):
+        ck.functions.add(r_.dispatch.qualname)
+        _, bp = batch_facts(dprog, r_)
+        bad = [p_ for p_ in bp if p_[0] == 'ORDER-MAP']
+        ck.ob('ORDER-MAP', f'{r_.cls.name}.dispatch: element responses are collected in request order', not bad)
+        for rule, construct, line, msg in bad:
+            ck.finding('ORDER-MAP', r_.dispatch.qualname, construct, r_.dispatch.module.rel, line, msg)
     # ---- IS-NOTIF-DEF ----------------------------------------------------------------------------------
     from ..flow import Flow as _Flow
     rn = prog.func(V20 + '.Request.is_notification')
